@@ -52,8 +52,43 @@ def parser_class(v: str):
     return XPath31Parser
 
 
-def new_parser(v: str):
-    return parser_class(v)(namespaces=dict(G.NAMESPACES))
+PARSER_VARIANTS = ['default', 'non-strict', 'compat', 'default-ns', 'var-types', 'xsd10', 'schema', 'base-uri']
+_SCHEMA: dict = {}
+
+
+def schema_proxy():
+    if 'p' not in _SCHEMA:
+        import xmlschema
+        from xmlschema.xpath import XMLSchemaProxy
+        xsd = ('<xs:schema xmlns:xs="http://www.w3.org/2001/XMLSchema"><xs:element name="a"><xs:complexType mixed="true">'
+               '<xs:sequence><xs:element name="b" type="xs:string" maxOccurs="unbounded"/><xs:element name="c" type="xs:decimal" '
+               'minOccurs="0"/></xs:sequence><xs:attribute name="id" type="xs:string"/>'
+               '<xs:anyAttribute processContents="lax"/></xs:complexType></xs:element></xs:schema>')
+        _SCHEMA['p'] = XMLSchemaProxy(xmlschema.XMLSchema(xsd))
+    return _SCHEMA['p']
+
+
+def new_parser(v: str, variant: str = 'default'):
+    """a new parser instance; `variant` selects constructor options (used by the reuse histories)"""
+    cls = parser_class(v)
+    ns = dict(G.NAMESPACES)
+    if variant == 'non-strict':
+        return cls(namespaces=ns, strict=False)
+    if v == '1.0' or variant == 'default':
+        return cls(namespaces=ns)
+    if variant == 'compat':
+        return cls(namespaces=ns, compatibility_mode=True)
+    if variant == 'default-ns':
+        return cls(namespaces=ns, default_namespace='http://p')
+    if variant == 'var-types':
+        return cls(namespaces=ns, variable_types={'s': 'xs:string', 'n': 'xs:integer', 'seq': 'xs:integer*'})
+    if variant == 'xsd10':
+        return cls(namespaces=ns, xsd_version='1.0')
+    if variant == 'base-uri':
+        return cls(namespaces=ns, base_uri='http://example.test/base/')
+    if variant == 'schema':
+        return cls(namespaces=ns, schema=schema_proxy())
+    return cls(namespaces=ns)
 
 
 # --------------------------------------------------------------------------------------
@@ -450,7 +485,7 @@ def label_text(label) -> str:
     return '|'.join(vals) if vals is not None else str(label)
 
 
-def scan_cursor_writers() -> list[tuple[str, str, str]]:
+def scan_cursor_writers(all_attrs: bool = False) -> list[tuple[str, str, str]]:
     """every (file, function, attribute) that assigns one of the cursor attributes of a parser:
     `self.X = ` inside a class whose name ends with `Parser`, or `<expr>.parser.X = ` anywhere
     (plain / augmented / annotated assignment, `for` target, `with … as`, walrus)"""
@@ -485,7 +520,9 @@ def scan_cursor_writers() -> list[tuple[str, str, str]]:
                 f2 = child.name
             for t in targets_of(child):
                 for a in flat(t):
-                    if isinstance(a, ast.Attribute) and a.attr in CURSOR_ATTRS:
+                    if isinstance(a, ast.Subscript):     # self.parser.x[k] = v  mutates attribute x
+                        a = a.value
+                    if isinstance(a, ast.Attribute) and (all_attrs or a.attr in CURSOR_ATTRS):
                         base = a.value
                         on_self_parser = (isinstance(base, ast.Name) and base.id == 'self'
                                           and (c2 or '').endswith('Parser'))
@@ -493,6 +530,15 @@ def scan_cursor_writers() -> list[tuple[str, str, str]]:
                                     (isinstance(base, ast.Name) and base.id == 'parser')
                         if on_self_parser or on_parser:
                             found.append((rel, f2 or '<module>', a.attr))
+            if all_attrs and isinstance(child, ast.Call) and isinstance(child.func, ast.Attribute) and \
+                    child.func.attr in ('append', 'add', 'update', 'pop', 'clear', 'setdefault', 'extend', 'insert',
+                                        'remove', 'discard', 'popitem', 'sort', 'reverse'):
+                b = child.func.value      # self.parser.x.update(...) / self.x.append(...) in a *Parser class
+                if isinstance(b, ast.Attribute):
+                    bb = b.value
+                    if (isinstance(bb, ast.Name) and bb.id == 'self' and (c2 or '').endswith('Parser')) or \
+                            (isinstance(bb, ast.Attribute) and bb.attr == 'parser'):
+                        found.append((rel, f2 or '<module>', b.attr))
             visit(child, c2, f2, rel)
 
     for path in sorted(pkg.rglob('*.py')):
@@ -680,6 +726,10 @@ def translate_tables(run: Run) -> dict:
     writers = scan_cursor_writers()
     out.append('def cursorWriters : List (String × String × String) := [' +
                ', '.join(f'({lean_str(a)}, {lean_str(b)}, {lean_str(c)})' for a, b, c in writers) + ']')
+    allw = [w for w in scan_cursor_writers(all_attrs=True) if w[1] != '__init__']
+    out.append('def parserAttrWriters : List (String × String × String) := [' +
+               ', '.join(f'({lean_str(a)}, {lean_str(b)}, {lean_str(c)})' for a, b, c in allw) + ']')
+    info['parser_attr_writers'] = len(allw)
     info['cursor_writers'] = len(writers)
     info['parse_shape'] = sh
     info['xp1_parse_shape'] = sh1
@@ -800,12 +850,12 @@ def gen_history(rng, v: str, g: 'G.Gen', tokenizer, symbols) -> list:
     return calls
 
 
-def history_line(v: str, calls: list):
+def history_line(v: str, calls: list, variant: str = 'default'):
     """runs the history on ONE instance and each call on a fresh one; returns (protocol line, impl text)"""
-    p = new_parser(v)
+    p = new_parser(v, variant)
     impl_parts, proto_parts = [], []
     for src in calls:
-        fresh = new_parser(v)
+        fresh = new_parser(v, variant)
         f_out, _ = parse_observed(fresh, src)
         i_out, _ = parse_observed(p, src)
         impl_parts.append(f'{i_out}#{cursor_text(p)}')
@@ -869,11 +919,20 @@ def correspond_histories(run: Run, n: int) -> None:
         syms = [k for k in parser_class(v).symbol_table if not k.startswith('(') or k == '(:']
         g = G.Gen(rng, v, ft[v])
         todo.append((v, gen_history(rng, v, g, p0.tokenizer, syms)))
-    for v, calls in todo:
-        line, impl = history_line(v, calls)
+    schema_histories = 0
+    for k, (v, calls) in enumerate(todo):
+        variant = 'default' if k < len(HISTORY_CORPUS) else rng.choice(PARSER_VARIANTS)
+        if variant == 'schema':      # a schema-bound parser is expensive to construct: few, short histories
+            schema_histories += 1
+            if schema_histories > run.scale(6, 40):
+                variant = 'default'
+            else:
+                calls = calls[:5]
+        line, impl = history_line(v, calls, variant)
         lines.append(line)
         impls.append(impl)
-        cases.append({'kind': 'history', 'v': v, 'calls': [c if isinstance(c, str) else f'<non-str {NONSTR.index(c)}>'
+        run.stats.count('history:parser-variant:' + variant)
+        cases.append({'kind': 'history', 'v': v, 'variant': variant, 'calls': [c if isinstance(c, str) else f'<non-str {NONSTR.index(c)}>'
                                                             for c in calls]})
     answers = run.driver('C03', lines)
     st = run.stats
@@ -1383,7 +1442,7 @@ def replay(run: Run) -> int:
         return 1 if bad else 0
     if case.get('kind') == 'history':
         calls = [c if not c.startswith('<non-str') else None for c in case['calls']]
-        line, impl = history_line(case['v'], calls)
+        line, impl = history_line(case['v'], calls, case.get('variant', 'default'))
         ans = run.driver('C03', [line])[0]
         spec = ans.split(' spec=')[1]
         for a, b in zip(impl.split('|'), spec.split('|')):
@@ -1423,9 +1482,11 @@ def body(run: Run) -> int:
     for code in info.get('codes_not_closed', []):
         run.disagree(Disagreement({'kind': 'error-code', 'code': code}, 'class-not-ElementPathError', None,
                                   'subclass-of-ElementPathError', what='taxonomy', site='exceptions.XPATH_ERROR_CODES'))
+    run.log('proofs built and audited')
     try:
         check_trigger_table(run)
         correspond_histories(run, run.scale(250, 2500))
+        run.log('histories done')
         cases = explore(run, run.scale(18000, 150000))
         lex_sources = [(c['v'], c['s']) for c in cases[::run.scale(6, 12)]]
         lex_sources += [(v, ' '.join(k for k in parser_class(v).symbol_table if not k.startswith('('))) for v in VERSIONS]
